@@ -186,6 +186,16 @@ class HistoryRunner:
                 evs.append(e)
             bk.insert(evs)
             return dict(kind=kind, steps=steps)
+        if kind == "insert_with_id":
+            # the single-event form of insert, given an event that carries the id of a live event (what an earlier
+            # insert handed back, edited): whether the store adds or rewrites, it is one acknowledged event write
+            u, i = self.resolve(b, op["pick"])
+            if i is None:
+                return None
+            e = mk_event(op["ev"])
+            e.id = i
+            bk.insert(e)
+            return dict(kind=kind, targets=[u])
         if kind == "replace":
             u, i = self.resolve(b, op["pick"])
             if i is None:
